@@ -67,14 +67,52 @@ class Report:
             self.samples.append(s)
 
     # ------------------------------------------------------------------
+    def selftest(self):
+        """Thorough tier: analyse the recorded source variants of this property (scratch copies outside /repo and
+        /verif, nothing is executed).  A breaking variant that is no longer reported, or a behaviour-preserving one
+        that now alarms, means the checker has lost power or precision: analysis broken, not a pass."""
+        import importlib.util
+        spec = importlib.util.spec_from_file_location("selftest_tool", os.path.join(VERIF, "tools", "selftest.py"))
+        st = importlib.util.module_from_spec(spec)
+        spec.loader.exec_module(st)
+        vs = [v for v in json.load(open(os.path.join(VERIF, "selftest", "variants.json"))) if v["property"] == self.pid]
+        r = self.rule("SELFTEST", "recorded source variants: breaking variants must be reported by the named rule, "
+                      "behaviour-preserving variants must stay silent (variants whose anchor text has left the tree are "
+                      "skipped)", floor=0)
+        bad = []
+        from concurrent.futures import ThreadPoolExecutor
+        repo = self.model.repo if self.model else "/repo"
+        with ThreadPoolExecutor(max_workers=8) as ex:
+            results = list(ex.map(lambda v: st.run_variant(v, repo), vs))
+        for v, (got, detail) in zip(vs, results):
+            r.instance("%s: expected %s, got %s" % (v["id"], v["expect"], got))
+            ok = got in (v["expect"], "skipped")
+            if ok and got == "violation" and v.get("rule") and v["rule"] not in detail:
+                ok = False
+            if ok:
+                r.ok()
+            else:
+                r.fail()
+                bad.append("%s (expected %s, got %s %s)" % (v["id"], v["expect"], got, detail[:80]))
+        self.extra["selftest"] = {"variants": len(vs), "unexpected": bad}
+        return bad
+
     def finish(self):
+        bad_selftest = []
+        if self.tier == "thorough" and not os.environ.get("VERIF_NO_SELFTEST") and not (
+                os.environ.get("VERIF_REPO") and os.path.realpath(os.environ["VERIF_REPO"]) != "/repo"):
+            os.environ["VERIF_NO_SELFTEST"] = "1"
+            try:
+                bad_selftest = self.selftest()
+            finally:
+                os.environ.pop("VERIF_NO_SELFTEST", None)
         known = []
         if os.path.exists(KNOWN):
             with open(KNOWN) as fh:
                 known = json.load(fh).get("findings", [])
         knownset = {(k["property"], k["rule"], k["function"], k["construct"])
                     for k in known if k.get("status") == "known"}
-        broken = []
+        broken = ["self-test variant behaves unexpectedly: " + b for b in bad_selftest]
         for r in self.rules:
             if len(r.instances) < r.floor:
                 broken.append("rule %s matched %d instance(s), below the floor of %d confirmed by hand"
